@@ -5,7 +5,9 @@ monitors on the same log."""
 import os
 import re
 
+import leafgen
 import vlib
+from framework import LineCheck
 from mtcheck import MTCheck
 
 NITEM = 8
@@ -474,6 +476,13 @@ def log_features(log):
     return f
 
 
+def _listed():
+    try:
+        return open(os.path.join(vlib.COQ, "_CoqProject")).read().split()
+    except OSError:
+        return []
+
+
 def _coq_targets():
     """the WorkMT files in dependency order; those not (yet) listed in _CoqProject have no make rule and are left to the
     direct compilation of the Properties file (their .vo files are kept in the tree)"""
@@ -636,6 +645,32 @@ class C12(_WorkCheck):
         "Bet;M60;L0:wc0=1 ws0.0 ws0.1 ws0.2 ws0.3 tr0+10000000000;H0t0:ws0.4 ws0.5",
         "Bet;M60;Z000000000011111111112222222222;L0:wc0=2 ws0.0 tr0+10000000000 tr1+10000000000;H0t0:ws0.1;H0t1:ws0.2",
     ]
+
+    # way (a) of the tie for the sequence-number arithmetic: the loop test / drained test / increments of iv_work.c are
+    # re-translated from the current source on every run (gen/c2gallina.py -> Gen/LeafWork.v) and MT/WorkLink.v proves them
+    # equal to what MT/WorkMT.v uses (theorem C12_seq_tests_are_the_code)
+    coq_targets = _WorkCheck.coq_targets + [t for t in ["theories/Base/CSem.vo", "theories/Gen/LeafWork.vo", "theories/MT/WorkLink.vo"]
+                                            if t[:-1] in _listed()]
+    trusted = _WorkCheck.trusted + [
+        "gen/c2gallina.py (class CTr: clang JSON AST -> Gen/LeafWork.v, rerun on every check) and the C integer semantics Base/CSem.v "
+        "(LP64, uint32_t wraps modulo 2^32, (int32_t) reduces modulo 2^32 as gcc/clang do, None = undefined behaviour): the tests "
+        "`(int32_t)(last_seq - pool->seq_head) > 0`, `pool->seq_head == pool->seq_tail` and the updates `seq_head++`, `seq_tail++`, "
+        "`last_seq = pool->seq_tail` are translated and proved equal to more_work / =? / (_ + 1) mod 2^32 of MT/WorkMT.v "
+        "(C12_seq_tests_are_the_code); which statement of the function is meant is selected by position (first while, third if, "
+        "first write of the field)",
+    ]
+
+    def pre_proof(self, ctx):
+        return leafgen.regenerate(["LeafWork.v"])
+
+    def proofs(self, ctx):
+        return leafgen.explain(
+            LineCheck.proofs(self, ctx), "WorkLink", "C12_seq_tests_are_the_code (MT/WorkLink.v: leaf_more_work / leaf_drained / "
+            "leaf_take_seq / leaf_submit_seq / leaf_last_seq / cs_loop_is_the_code)",
+            "the sequence-number tests and updates of iv_work_thread_got_event / iv_work_submit_pool in the current src/iv_work.c "
+            "(`while ((int32_t)(last_seq - pool->seq_head) > 0)`, `if (pool->seq_head == pool->seq_tail)`, `pool->seq_head++`, "
+            "`pool->seq_tail++`, `last_seq = pool->seq_tail`), as translated by gen/c2gallina.py into Gen/LeafWork.v, are not the model's "
+            "more_work / =? / (_ + 1) mod 2^32 any more")
 
     def mix(self, ctx):
         q = ctx.tier == "quick"
